@@ -151,6 +151,12 @@ def run_C16(res, tier):
     type_cases = [("samples", lambda: reg[0:4:2]), ("samples", lambda: reg[0.5:3]), ("samples", lambda: reg[1:2.0]), ("samples", lambda: reg["a":3]),
                   ("samples", lambda: reg[3]), ("sec", lambda: reg.sec[0:1:1]), ("sec", lambda: reg.sec["0":1]), ("sec", lambda: reg.sec[1]),
                   ("ms", lambda: reg.ms[0.5:100]), ("ms", lambda: reg.ms[0:100.0]), ("ms", lambda: reg.ms[0:100:2]), ("ms", lambda: reg.ms[5])]
+    from fractions import Fraction
+    # wrong-typed bounds that happen to be falsy (zero or empty) are wrong-typed all the same
+    for bad_v in (0.0, -0.0, "", b"", Fraction(0), [], ()):
+        for view, kind in ((reg, "samples"), (reg.ms, "ms")) + (((reg.sec, "sec"),) if not isinstance(bad_v, float) else ()):
+            type_cases.append((kind, (lambda v=view, x=bad_v: v[x:3])))
+            type_cases.append((kind, (lambda v=view, x=bad_v: v[0:x])))
     for kind, f in type_cases:
         try:
             f()
@@ -159,6 +165,22 @@ def run_C16(res, tier):
             pass
         except Exception as e:
             viol = viol or {"what": "wrong exception %s instead of TypeError (%s view)" % (type(e).__name__, kind)}
+    # a view is a way of slicing its region: it stays usable when it is all the caller kept
+    import gc
+    for w_, ch_ in FORMATS[:3]:
+        d_ = mk_bytes(40, w_, ch_)
+
+        def views():
+            tmp = AudioRegion(d_, 10, w_, ch_)
+            return tmp.seconds, tmp.millis
+        sv, mv = views()
+        gc.collect()
+        ref = AudioRegion(d_, 10, w_, ch_)
+        try:
+            if viol is None and (sv[0.5:2.0].data != ref.seconds[0.5:2.0].data or mv[500:2000].data != ref.millis[500:2000].data):
+                viol = {"what": "a seconds / milliseconds view kept without its region slices differently from the view of an identical region", "format": [w_, ch_]}
+        except Exception as e:
+            viol = viol or {"what": "slicing through a seconds / milliseconds view whose region is no longer referenced elsewhere raised %s: %s" % (type(e).__name__, e), "format": [w_, ch_]}
     outs = C.model_eval(cases)
     mism = [(m, i, o) for m, i, o in zip(meta, impl, outs) if i != o]
     vm = C.vm_crosscheck(cases[:n_samples_cases], outs[:n_samples_cases], "C16", 30)
@@ -364,6 +386,33 @@ def run_C17(res, tier):
     regs = [AudioRegion(mk_bytes(k, 2, 2, r), 10, 2, 2) for k in (1, 0, 3, 2)]
     if sum(regs).data != b"".join(x.data for x in regs):
         viol = viol or {"what": "sum(regions) is not the byte concatenation"}
+    # join over any iterable of regions (list, tuple, iterator, generator, map): same bytes; a mismatching region raises for all of them
+    sep = AudioRegion(mk_bytes(2, 2, 2, r), 10, 2, 2)
+    want = sep.data.join(x.data for x in regs)
+    odd = regs[:2] + [AudioRegion(mk_bytes(2, 2, 1, r), 10, 2, 1)] + regs[2:]
+    for name, mk in (("list", lambda xs: list(xs)), ("tuple", lambda xs: tuple(xs)), ("iterator", lambda xs: iter(list(xs))), ("generator", lambda xs: (x for x in xs)),
+                     ("map object", lambda xs: map(lambda x: x, xs))):
+        try:
+            got = sep.join(mk(regs))
+            if viol is None and (got.data != want or (got.sr, got.sw, got.ch) != (10, 2, 2)):
+                viol = {"what": "join over a %s of %d regions holds %d bytes, the separator-interleaved concatenation has %d" % (name, len(regs), len(got.data), len(want))}
+        except Exception as e:
+            viol = viol or {"what": "join over a %s raised %s" % (name, type(e).__name__)}
+        try:
+            sep.join(mk(odd))
+            viol = viol or {"what": "join over a %s containing a region with other audio parameters did not raise" % name}
+        except Exception as e:
+            if viol is None and type(e).__name__ != "AudioParameterError":
+                viol = {"what": "join over a %s containing a region with other audio parameters raised %s instead of AudioParameterError" % (name, type(e).__name__)}
+    # equality is about bytes and audio parameters only: start times (metadata of where a region was found) play no part
+    d_eq = mk_bytes(5, 2, 2, r)
+    for sa, sb in ((0.0, 1.5), (None, 2.0), (0.25, 0.25), (3.0, None)):
+        a_, b_ = AudioRegion(d_eq, 10, 2, 2, sa), AudioRegion(d_eq, 10, 2, 2, sb)
+        if viol is None and not (a_ == b_ and b_ == a_):
+            viol = {"what": "two regions with the same bytes and audio parameters compare unequal (start times %r and %r)" % (sa, sb)}
+        c_ = AudioRegion(d_eq[:-4], 10, 2, 2, sa)
+        if viol is None and (a_ == c_):
+            viol = {"what": "two regions with different bytes compare equal"}
     outs = C.model_eval(cases)
     mism = [(m, i, o) for m, i, o in zip(meta, impl, outs) if i != o]
     vm = C.vm_crosscheck(cases, outs, "C17", 30)
